@@ -1420,6 +1420,15 @@ impl Visitor<Diagnostic> for LibraryRenderer {
         };
         self.write_ws(op);
 
+        // The operand of a unary operator is a primary expression so another
+        // unary expression must be in parentheses
+        if let dsl::textual::ExprKind::UnaryOp(_) = &node.term {
+            self.write_ws("(");
+            self.visit_expr_kind(&node.term)?;
+            self.write_ws(")");
+            return Ok(());
+        }
+
         self.visit_expr_kind(&node.term)
     }
 
